@@ -240,7 +240,7 @@ def make_asint(mod, spec):
                     return rb
                 finally:
                     PAIR_STATS.update({k_: v_ for k_, v_ in pool.stats.items()
-                                       if k_ == "built_as_integer_arrays" or k_.startswith("respelled_")})
+                                       if k_ in ("built_as_integer_arrays", "derived_objects") or k_.startswith("respelled_")})
 
         def oracle(r, b0=b0, seen=seen):
             if spec.get("how") == "npscalar" and (r is None or r[0] != "ok"):
@@ -316,6 +316,10 @@ def asint_specs(specs, rng, tier):
         # oracles that compare two calls of the library exactly would see if only one of them were respelled)
         out += [{"op": "asint", "how": rng.choice(["strided", "readonly", "fortran", "npscalar"]), "mode": "all", "spec": s}
                 for s in rng.sample(anyspec, n)]
+        # the same value objects, but derived (flipped twice) from objects that have been used before: what an earlier
+        # object computed and kept (a lazily filled cache, a precomputed constant) must not reach the derived one
+        rng2 = random.Random(rng.random())
+        out += [{"op": "asint", "how": "derived", "mode": "all", "spec": s} for s in rng2.sample(anyspec, n)]
     return out
 
 
